@@ -837,6 +837,11 @@ func verifyAuthenticTimestamp(ctx context.Context, policyName string, trustStore
 // certificate subject if the final result is not ResultOK
 func revocationFinalResult(certResults []*revocationresult.CertRevocationResult, certChain []*x509.Certificate, logger log.Logger) (revocationresult.Result, string) {
 	finalResult := revocationresult.ResultUnknown
+	if len(certResults) != len(certChain) {
+		// fail closed: every certificate of the chain needs a result of its own
+		logger.Errorf("Revocation validator returned %d results for a chain of %d certificates", len(certResults), len(certChain))
+		return finalResult, ""
+	}
 	numOKResults := 0
 	var problematicCertSubject string
 	revokedFound := false
